@@ -325,8 +325,8 @@ Print Assumptions C01_loop_halts_only_on_full.
        commits the next block in the first round.
    What is missing for the unguarded statement: the pinned loops HALT the node, by design, on the two kinds of
    round of (6') — after an execution-layer failure or a refused non-empty batch the node produces again only once
-   it has been started again ([ex_loop_halts]: kernel-checked witness; the harness observes the same halts on the
-   real AggregationLoop and counts them).  By (6) no fault of the sequencing layer is among them. *)
+   it has been started again ((7') below: refuted; [ex_loop_halts]; the harness observes the same halts on the real
+   AggregationLoop and reports them as known findings).  By (6) no fault of the sequencing layer is among them. *)
 Theorem C01_loop_no_wedge_partial : forall (c : cfg) (h : list act),
   wf_cfg c ->
   let st := lrun c h in
@@ -339,6 +339,29 @@ Theorem C01_loop_no_wedge_partial : forall (c : cfg) (h : list act),
          a_out (step c (img_of st') v sq e) = OCommitted (g_height (img_of st') + 1)).
 Proof. exact loop_no_wedge. Qed.
 Print Assumptions C01_loop_no_wedge_partial.
+
+(* (7') REFUTED: the unguarded statement — "no sequence of responses leaves the node unable to produce blocks once the
+   responses are well-formed again", read for the node under its own loop WITHOUT a restart — is false of the
+   faithful model.  [halted_for_good c h sq e] (Proofs/ProducerLoopProofs.v): the configuration is well-formed, after
+   the history [h] of starts and rounds the loop has ENDED on its own, the responses [sq], [e] are well-formed, the
+   round offering them finds no process, writes nothing and commits nothing — nor do three such rounds — while after
+   a restart the very same responses commit the next height.  Witnesses by computation: (a) ONE failure of the
+   execution layer (the last round of [h] is answered by EErr, every other answer is well-formed, [h] holds no
+   failing start); (b) one NON-EMPTY batch older than the last block, with a working execution layer.
+   Both are reproduced on the real AggregationLoop by the harness (known findings of C01:
+   production-loop-halted-on-execution-error, production-loop-halted-on-regressed-nonempty-batch; witnesses
+   findings/C01-loop-halts-on-*.json are these very histories). *)
+Theorem C01_loop_no_wedge_refuted :
+  exists (c : cfg) (h : list act) (sq : seqresp) (e : execresp), halted_for_good c h sq e /\
+    (exists txs ts cur, last h (ABoot None) = AStep (SBatch txs ts cur) EErr) /\ Forall (fun a => a <> ABoot None) h.
+Proof. exact loop_no_wedge_refuted. Qed.
+Print Assumptions C01_loop_no_wedge_refuted.
+
+Theorem C01_loop_no_wedge_regressed_batch_refuted :
+  exists (c : cfg) (h : list act) (sq : seqresp) (e : execresp), halted_for_good c h sq e /\
+    (exists txs ts cur r, last h (ABoot None) = AStep (SBatch txs ts cur) (EOk r) /\ txs <> []).
+Proof. exact loop_no_wedge_regressed_batch_refuted. Qed.
+Print Assumptions C01_loop_no_wedge_regressed_batch_refuted.
 
 (* non-vacuity and the witness of (7): under the loop — the genesis block, a block, three rounds answered by
    sequencer faults (error, no batch, error: the loop keeps running, nothing is written), a block, an execution
